@@ -120,6 +120,22 @@ impl MDist {
         let (low, high) = self.bounds();
         Some(Dist::new(DistType::Uniform { low, high }, 0.0, 0.0))
     }
+    /// like `to_dist`, for timeouts and durations: a constant HUGE support is
+    /// realised in rotating ways that all exceed the 24 h cap (a huge value, a
+    /// huge value under an explicit `max` above the cap, a huge `start`)
+    pub fn to_dist_dur(&self) -> Option<Dist> {
+        use std::sync::atomic::{AtomicUsize, Ordering};
+        static ROT: AtomicUsize = AtomicUsize::new(0);
+        if self.real.is_none() && self.is_const() && self.vals[0] == HUGE {
+            let k = ROT.fetch_add(1, Ordering::Relaxed) % 3;
+            return Some(match k {
+                0 => Dist::new(DistType::Uniform { low: HUGE_F, high: HUGE_F }, 0.0, 0.0),
+                1 => Dist::new(DistType::Uniform { low: HUGE_F, high: HUGE_F }, 0.0, 1e12),
+                _ => Dist::new(DistType::Uniform { low: 0.0, high: 0.0 }, HUGE_F, 0.0),
+            });
+        }
+        self.to_dist()
+    }
     /// the 64-bit word that makes this distribution return (a value that the
     /// consumers round or truncate to) `v`; None when no draw is consumed
     pub fn word_for(&self, v: i64) -> Option<u64> {
@@ -222,19 +238,19 @@ impl MAction {
             "SendPadding" => Some(Action::SendPadding {
                 bypass: self.bypass,
                 replace: self.replace,
-                timeout: self.timeout.to_dist().expect("timeout"),
+                timeout: self.timeout.to_dist_dur().expect("timeout"),
                 limit: self.limit.to_dist(),
             }),
             "BlockOutgoing" => Some(Action::BlockOutgoing {
                 bypass: self.bypass,
                 replace: self.replace,
-                timeout: self.timeout.to_dist().expect("timeout"),
-                duration: self.duration.to_dist().expect("duration"),
+                timeout: self.timeout.to_dist_dur().expect("timeout"),
+                duration: self.duration.to_dist_dur().expect("duration"),
                 limit: self.limit.to_dist(),
             }),
             "UpdateTimer" => Some(Action::UpdateTimer {
                 replace: self.replace,
-                duration: self.duration.to_dist().expect("duration"),
+                duration: self.duration.to_dist_dur().expect("duration"),
                 limit: self.limit.to_dist(),
             }),
             k => panic!("bad action kind {k}"),
